@@ -280,4 +280,16 @@ theorem dropEvents_count (k i : Nat) :
   · simp
   · simp
 
+/-! ### builder episodes on one arena (C11: repeated faults) -/
+
+/-- Run builder episodes one after another on the same arena: each episode is one builder
+    (its configuration and everything the client does with it, faults included), started on the
+    arena side (`total_gc_count`, allocations this cycle) the previous one left.  Returns the
+    final arena side and the number of episodes that ended with a `Gc`. -/
+def runEpisodes : Nat → Nat → Nat → List (Cfg × List Action) → Nat × Nat × Nat
+  | g, a, l, [] => (g, a, l)
+  | g, a, l, (c, acts) :: rest =>
+    runEpisodes (run c (initial g a) acts).gcs (run c (initial g a) acts).allocated
+      (if (run c (initial g a) acts).stage = .linked then l + 1 else l) rest
+
 end GcArena.Builder
